@@ -50,6 +50,9 @@ def branch_modes(test):
     fail(test, 'mode test not understood')
 
 
+LAST = {}      # structured copy of what the last generate() emitted for the ES dispatcher (read by the translator-validation stage)
+
+
 def generate():
     et = ast.parse(open(os.path.join(REPO, 'goodwe', 'et.py')).read(), 'et.py')
     cls = next(c for c in et.body if isinstance(c, ast.ClassDef) and c.name == 'ET')
@@ -179,6 +182,7 @@ def generate():
         if not mlast or mlast.group(1) not in MODES: fail(hf, f'ES.{hname} does not end with _set_work_mode(OperationMode.X)')
         if sum(1 for x in ast.walk(hf) if isinstance(x, ast.Attribute) and x.attr == '_set_work_mode') != 1: fail(hf, f'ES.{hname} commands the work mode more than once')
         finals[hcon] = MODES[mlast.group(1)]
+    LAST['es_steps'] = dict(esteps); LAST['es_finals'] = dict(finals)
     swm = efns.get('_set_work_mode')
     if not isinstance(swm, ast.AsyncFunctionDef) or [ast.unparse(n) for n in swm.body] != ["await self._read_from_socket(Aa55ProtocolCommand(f'035901{mode:02x}', '03D9'))"]:
         raise Unsupported('om2v: ES._set_work_mode is not the single command 035901<mode>')
